@@ -9,6 +9,8 @@ structure CellDef where
   cached : Bool
   allowNone : Option Bool        -- the cells' own setting (`None` = look it up in the space)
   nparams : Nat
+  /-- default values of the last `defaults.length` parameters (from the `sig` line of the id) -/
+  defaults : List Val := []
   body : Expr
 
 structure World where
@@ -25,9 +27,20 @@ structure World where
   lastEval : Option (Node × St) := none
   /-- a stack-trace session is active -/
   tracing : Bool := false
+  /-- declared signatures: number of parameters and the default values of the last ones.  The
+  signature of a cells id is fixed for the whole history (as its space is); formulas are read with
+  the table in hand, so `sig` lines come before any formula -/
+  sigs : List (CellId × Nat × List Val) := []
 
 def World.cell? (w : World) (c : CellId) : Option CellDef :=
   (w.cells.find? (·.1 == c)).map (·.2)
+
+def World.dfltOf (w : World) (c : CellId) : List Val :=
+  match w.sigs.find? (·.1 == c) with | some e => e.2.2 | none => []
+
+/-- a `cell` / `newcell` line agrees with the declared signature of the id -/
+def World.sigOk (w : World) (c : CellId) (np : Nat) : Bool :=
+  match w.sigs.find? (·.1 == c) with | some e => e.2.1 == np | none => true
 
 def World.spaceOfCell (w : World) (c : CellId) : Nat :=
   match w.cellSpace.find? (·.1 == c) with | some e => e.2 | none => 0
@@ -80,6 +93,34 @@ def showErr : Err → String
 def sorted (xs : List String) : List String := (xs.toArray.qsort (· < ·)).toList
 
 def parseKey (toks : List String) : Option Key := toks.mapM parseVal?
+
+/-- `k<i>=<v>`: a keyword argument for parameter `i` -/
+def parseKwArg? (t : String) : Option (Nat × Val) :=
+  if t.startsWith "k" then
+    match (t.drop 1).toString.splitOn "=" with
+    | [i, v] => do
+      let i ← i.toNat?
+      let v ← parseVal? v
+      some (i, v)
+    | _ => none
+  else none
+
+/-- the arguments of a top-level request as they are spelled: positional values, then keyword arguments -/
+def parseSpelled : List String → Option (List Val × List (Nat × Val))
+  | [] => some ([], [])
+  | t :: ts =>
+    match parseKwArg? t with
+    | some kv => do
+      let kws ← ts.mapM parseKwArg?
+      some ([], kv :: kws)
+    | none => do
+      let v ← parseVal? t
+      let (ps, kws) ← parseSpelled ts
+      some (v :: ps, kws)
+
+/-- the element a spelling denotes for cells `d` (`get_node`), or `none` = `TypeError` -/
+def CellDef.bind (d : CellDef) (sp : List Val × List (Nat × Val)) : Option Key :=
+  bindKey d.nparams d.defaults sp.1 sp.2
 
 def obs (w : World) (what : String) : World × String :=
   let s := w.st
@@ -137,11 +178,19 @@ def step (w : World) (line : String) : World × String :=
   | ["maxdepth", n] => match n.toNat? with
     | some n => ({ w with maxdepth := n }, "ok")
     | none => (w, "bad-op")
+  | "sig" :: id :: np :: dflt =>
+    match id.toNat?, np.toNat?, parseKey dflt with
+    | some id, some np, some dflt =>
+      if np < dflt.length then (w, "bad-op") else
+      ({ w with sigs := (id, np, dflt) :: w.sigs.filter (·.1 != id) }, "ok")
+    | _, _, _ => (w, "bad-op")
   | "cell" :: id :: cached :: an :: np :: body =>
-    match id.toNat?, np.toNat?, parseExpr body with
+    match id.toNat?, np.toNat?, parseExprWith w.dfltOf body with
     | some id, some np, some (e, []) =>
       if !blocksSimple e then (w, "unsupported: a try inside an except/finally block") else
-      let d : CellDef := { cached := cached = "1", allowNone := (if an = "n" then none else some (an = "1")), nparams := np, body := e }
+      if !w.sigOk id np then (w, "unsupported: the signature of an id is fixed") else
+      let d : CellDef := { cached := cached = "1", allowNone := (if an = "n" then none else some (an = "1")), nparams := np,
+                           defaults := w.dfltOf id, body := e }
       ({ w with cells := (id, d) :: w.cells.filter (·.1 != id) }, "ok")
     | _, _, _ => (w, "bad-op")
   | ["allownone", "space", v] => ({ w with anSpace := if v = "n" then none else some (v = "1") }, "ok")
@@ -151,12 +200,14 @@ def step (w : World) (line : String) : World × String :=
     | some id, some v => ({ w with refs := (id, v) :: w.refs.filter (·.1 != id) }, "ok")
     | _, _ => (w, "bad-op")
   | "eval" :: id :: args =>
-    match id.toNat?, parseKey args with
-    | some id, some key =>
+    match id.toNat?, parseSpelled args with
+    | some id, some sp =>
       match w.cell? id with
       | none => (w, if w.declared id then "err Deleted" else "err Name")
       | some d =>
-        if key.length != d.nparams then (w, "err Type") else
+        match d.bind sp with
+        | none => (w, "err Type")
+        | some key =>
         let (r, st') := evalTop w.env (id, key) w.st
         match r with
         | .ok v => ({ w with st := st', lastEval := some ((id, key), w.st) }, "ok " ++ showVal v)
@@ -168,21 +219,29 @@ def step (w : World) (line : String) : World × String :=
     match id.toNat?, rest.reverse with
     | some id, v :: "=" :: revargs =>
       match parseVal? v, parseKey revargs.reverse with
-      | some v, some key =>
+      | some v, some args =>
         match w.cell? id with
         | none => (w, if w.declared id then "err Deleted" else "err Name")
         | some d =>
           if !d.cached then (w, "err Value") else
-          if key.length != d.nparams then (w, "err Type") else
+          -- `cells[args] = v`: the subscript is bound like positional arguments (`set_value`: `get_node`)
+          match d.bind (args, []) with
+          | none => (w, "err Type")
+          | some key =>
           let (st', e) := w.st.setValue w.env (id, key) v
           ({ w with st := st' }, match e with | none => "ok" | some _ => "err NoneReturned")
       | _, _ => (w, "bad-op")
     | _, _ => (w, "bad-op")
   | "clearat" :: id :: args =>
-    match id.toNat?, parseKey args with
-    | some id, some key =>
-      if (w.cell? id).isNone && w.declared id then (w, "err Deleted") else
-      ({ w with st := w.st.clearValueAt (id, key) true }, "ok")
+    match id.toNat?, parseSpelled args with
+    | some id, some sp =>
+      match w.cell? id with
+      | none => (w, if w.declared id then "err Deleted" else "err Name")
+      | some d =>
+        -- `cells.clear_at(*args, **kwargs)`: `get_node` first
+        match d.bind sp with
+        | none => (w, "err Type")
+        | some key => ({ w with st := w.st.clearValueAt (id, key) true }, "ok")
     | _, _ => (w, "bad-op")
   | "delcell" :: [id] =>
     -- `del space.c`: the clearing under the old definitions, then the cells is gone
@@ -194,13 +253,15 @@ def step (w : World) (line : String) : World × String :=
     | none => (w, "bad-op")
   | "newcell" :: id :: cached :: an :: np :: body =>
     -- `space.new_cells(name, formula, is_cached)` (+ `allow_none`, which clears nothing)
-    match id.toNat?, np.toNat?, parseExpr body with
+    match id.toNat?, np.toNat?, parseExprWith w.dfltOf body with
     | some id, some np, some (e, []) =>
       if !blocksSimple e then (w, "unsupported: a try inside an except/finally block") else
+      if !w.sigOk id np then (w, "unsupported: the signature of an id is fixed") else
       match w.cell? id with
       | some _ => (w, "err Value")
       | none =>
-        let d : CellDef := { cached := cached = "1", allowNone := (if an = "n" then none else some (an = "1")), nparams := np, body := e }
+        let d : CellDef := { cached := cached = "1", allowNone := (if an = "n" then none else some (an = "1")), nparams := np,
+                             defaults := w.dfltOf id, body := e }
         ({ w with st := w.st.newCell w.env id, cells := (id, d) :: w.cells }, "ok")
     | _, _, _ => (w, "bad-op")
   | ["space", "cell", id, k] => match id.toNat?, k.toNat? with
@@ -222,7 +283,7 @@ def step (w : World) (line : String) : World × String :=
       ({ w with st := w.st.delRef w.env id, refs := w.refs.filter (·.1 != id) }, "ok")
     | none => (w, "bad-op")
   | "setformula" :: id :: body =>
-    match id.toNat?, parseExpr body with
+    match id.toNat?, parseExprWith w.dfltOf body with
     | some id, some (e, []) =>
       if !blocksSimple e then (w, "unsupported: a try inside an except/finally block") else
       match w.cell? id with
